@@ -1,6 +1,8 @@
 package c14
 
 import (
+	"bufio"
+	"bytes"
 	"fmt"
 
 	"github.com/tuneinsight/lattigo/v6/core/rlwe"
@@ -43,8 +45,14 @@ func runRLK(c *eng.Ctx, cf cfg) {
 	shareRows := func(s rshare) [][]uint64 { return gadgetRows(&s.GadgetCiphertext) }
 
 	for trial := 0; trial < 3; trial++ {
-		lq, lp, w := e.drawEvkParams(trial)
-		evp := rlwe.EvaluationKeyParameters{LevelQ: &lq, LevelP: &lp, BaseTwoDecomposition: &w}
+		lq, lp, w := 0, 0, 0
+		var evp []rlwe.EvaluationKeyParameters // what the API receives (ext cases: possibly nothing / nil fields)
+		if cf.Ext {
+			lq, lp, w, evp = e.drawEvkParamsExt(trial)
+		} else {
+			lq, lp, w = e.drawEvkParams(trial)
+			evp = []rlwe.EvaluationKeyParameters{{LevelQ: &lq, LevelP: &lp, BaseTwoDecomposition: &w}}
+		}
 		nrows := params.BaseRNSDecompositionVectorSize(lq, lp)
 		digits := params.BaseTwoDecompositionVectorSize(lq, lp, w)[:nrows]
 		if digitsUnequal(digits) {
@@ -61,7 +69,7 @@ func runRLK(c *eng.Ctx, cf cfg) {
 			for i := range protos {
 				crs := e.newCRS()
 				e.warmUp(crs, script, &reads[i])
-				crps[i] = protos[i].SampleCRP(crs, evp)
+				crps[i] = protos[i].SampleCRP(crs, evp...)
 				reads[i].addMat(params, crps[i].Value)
 			}
 		}) {
@@ -72,6 +80,20 @@ func runRLK(c *eng.Ctx, cf cfg) {
 			rr = append(rr, reads[i].rows)
 		}
 		e.checkCRP(P, rr, reads[0].mods)
+		if cf.Ext {
+			// a party that rewinds its CRS (KeyedPRNG.Reset) and replays the call sequence obtains the same polynomials
+			c.Try("C14|"+P+".SampleCRP", func() {
+				crs := e.newCRS()
+				var rd [2]crpRead
+				for k := range rd {
+					e.warmUp(crs, script, &rd[k])
+					rd[k].addMat(params, protos[0].SampleCRP(crs, evp...).Value)
+					crs.Reset()
+				}
+				c.Count("crs_rewinds", 1)
+				c.Check(eqRows(rd[0].rows, rd[1].rows, nil) && eqRows(rd[0].rows, reads[0].rows, nil), "C14|"+P+".SampleCRP|crs-rewind-does-not-replay", nil)
+			})
+		}
 
 		// ---- round one
 		eph := make([]*rlwe.SecretKey, e.np)
@@ -79,7 +101,14 @@ func runRLK(c *eng.Ctx, cf cfg) {
 		r2 := make([]rshare, e.np)
 		if !c.Try("C14|"+P+".GenShareRoundOne", func() {
 			for i := range protos {
-				eph[i], r1[i], r2[i] = protos[i].AllocateShare(evp)
+				eph[i], r1[i], r2[i] = protos[i].AllocateShare(evp...)
+				if cf.Ext && i%2 == 1 {
+					// receivers that held something else before: both rounds and the ephemeral key must be overwritten
+					e.junkGadget(&r1[i].GadgetCiphertext)
+					e.junkGadget(&r2[i].GadgetCiphertext)
+					e.junkRows(qpRows(eph[i].Value), qpMods(params, params.MaxLevelQ(), params.MaxLevelP()))
+					c.Count("share_buffers_dirty", 2)
+				}
 				protos[i].GenShareRoundOne(e.sks[i], crps[i], eph[i], &r1[i])
 			}
 		}) {
@@ -107,8 +136,17 @@ func runRLK(c *eng.Ctx, cf cfg) {
 			if !ok {
 				return nil
 			}
+			var stream []byte
+			var off []int
+			if cf.Ext {
+				if stream, off, ok = wireTrip[rshare](c, "RelinearizationKeyGenShare", shares, blobs, func(a, b rshare) bool {
+					return eqRows(shareRows(a), shareRows(b), nil) && a.BaseTwoDecomposition == b.BaseTwoDecomposition
+				}); !ok {
+					return nil
+				}
+			}
 			alloc := func() rshare {
-				_, a1, a2 := protos[rnd.N(e.np)].AllocateShare(evp)
+				_, a1, a2 := protos[rnd.N(e.np)].AllocateShare(evp...)
 				if degree == 1 {
 					return a1
 				}
@@ -116,6 +154,30 @@ func runRLK(c *eng.Ctx, cf cfg) {
 			}
 			return &ops[rshare]{proto: P, round: "/" + round, key: kp, n: e.np, mods: gadgetMods(params, &shares[0].GadgetCiphertext),
 				leaf: func(i int, ser bool) rshare {
+					if ser && cf.Ext {
+						// receive buffer: zero value / right shape / allocated for other evaluation-key parameters (and dirty)
+						var s rshare
+						switch rnd.N(3) {
+						case 1:
+							s = alloc()
+						case 2:
+							_, a1, a2 := protos[0].AllocateShare(e.otherEvp())
+							s = eng.Pick(rnd, a1, a2)
+							e.junkGadget(&s.GadgetCiphertext)
+							c.Count("receive_buffers_of_other_shape", 1)
+						}
+						var err error
+						if rnd.Bool() {
+							err = s.UnmarshalBinary(blobs[i])
+						} else {
+							c.Count("leaves_from_common_stream", 1)
+							_, err = s.ReadFrom(bufio.NewReader(bytes.NewReader(stream[off[i]:])))
+						}
+						if err != nil {
+							panic(err)
+						}
+						return s
+					}
 					if ser {
 						var s rshare
 						if rnd.Bool() {
@@ -182,7 +244,12 @@ func runRLK(c *eng.Ctx, cf cfg) {
 		}
 
 		// ---- finalisation; a second key from canonical (fully reduced) copies of the aggregates must be identical
-		rlk := rlwe.NewRelinearizationKey(params, evp)
+		rlk := rlwe.NewRelinearizationKey(params, evp...)
+		if cf.Ext && rnd.Bool() {
+			// a key object that held another key before
+			e.junkGadget(&rlk.GadgetCiphertext)
+			c.Count("finalisations_into_used_key", 1)
+		}
 		if !c.Try("C14|"+P+".GenRelinearizationKey", func() { protos[rnd.N(e.np)].GenRelinearizationKey(agg1, agg2, rlk) }) {
 			continue
 		}
@@ -197,7 +264,7 @@ func runRLK(c *eng.Ctx, cf cfg) {
 				}
 				return cp
 			}
-			rlk2 := rlwe.NewRelinearizationKey(params, evp)
+			rlk2 := rlwe.NewRelinearizationKey(params, evp...)
 			if c.Try("C14|"+P+".GenRelinearizationKey", func() {
 				protos[0].GenRelinearizationKey(canon(agg1, o1), canon(agg2, o2), rlk2)
 			}) {
